@@ -210,6 +210,8 @@ def apply_edits(item, edits, twin_false=False):
             item.rename_ident(at["from"], at["to"], at.get("why", ""))
         elif k == "desugar-for":
             item.desugar_for(int(at["loop"]), at.get("it", "vit"))
+        elif k == "desugar-for-indexed":
+            item.desugar_for_indexed(int(at["loop"]), at.get("counter"))
         elif k == "sinks":
             item.sinks(-1 if at.get("count") == "any" else int(at.get("count", "0")), at.get("fn", "ext_sink"))
         elif k == "drop-logs":
@@ -283,7 +285,7 @@ def generate(u, repo, specs_dir, twin_of=None, extra=""):
     # no longer present exactly once the unit is undecided (lost anchor), never silently stale
     for ex in u.get("expects", []):
         rel, _, txt = ex.partition("::")
-        toks = rsx.tokenize(open("%s/%s" % (repo, rel.strip()), encoding="utf-8").read())
+        toks = rsx.tokenize(open(rsx.resolve_source(repo, rel.strip()), encoding="utf-8").read())
         hits = rsx.find_seq(toks, rsx.texts(rsx.tokenize(txt)))
         if len(hits) != 1:
             raise rsx.LostAnchor("expected text `%s` found %d times in %s" % (txt.strip(), len(hits), rel.strip()))
